@@ -11,14 +11,24 @@
      C01_greedy_path (joint and per-variable), C01_virtual_evidence, C01_prune_barren, C01_prune_ancestral
      (the ancestral step of pruning: leaf-first enumeration exists in every DAG), C01_heuristics_perm,
      and the pool-level C01_ve_any_order / C01_ve_order_independent / C01_working_factors_refines_ve_run_partial.
-   NOT proved in general: soundness of the d-separation step of [prune] (finite-domain theorem
-   C01_prune_dsep_3nodes_grid3 instead); that the augmented
+   The WHOLE [prune] (d-separation step + ancestral step + CPD marginalisation) keeps the posterior for every valid
+   network of every size with non-negative entries (C01_prune_sound; without the sign condition the two unnormalised
+   answers are proportional: C01_prune_proportional), from the factorisation theorem of Base/Markov.v, whose other
+   corollary is the global Markov property of every valid network (C01_global_markov: path-based d-separation
+   implies conditional independence in product form).  C01_prune_dsep_3nodes_grid3 is kept as an independent check.
+   The pruned network is again a valid network (C01_prune_valid), hence [query] = prune ; eliminate as ONE statement:
+   the literal [query] without virtual evidence returns the posterior (joint mode: C01_query_end_to_end) / the posterior
+   marginals (per-variable mode: C01_query_end_to_end_per_variable) of the ORIGINAL network, for the greedy branch,
+   elimination_order=None and every heuristic.
+   NOT proved in general: that the augmented
    network of _virtual_evidence is again a valid_bn (C01_virtual_evidence is stated on the unnormalised answer,
-   which needs no such fact); the composition [query] = prune ; ve is therefore tied by the correspondence run. *)
+   which needs no such fact), so [query] WITH virtual evidence, and with an explicit elimination-order list or an empty
+   query list, is tied by the correspondence run. *)
 From Coq Require Import List Arith Lia PeanoNat Bool QArith Qcanon Permutation.
 From PV Require Import Base.Semiring Base.Ravel Base.FinSum Base.RefFactor Base.VE Base.Graph
   C01.Model C01.Spec C01.Proofs C01.ProofsElim C01.ProofsMisc C01.ProofsIdx C01.ProofsFinal C01.ProofsEvid
-  C01.ProofsQuery C01.ProofsPost C01.ProofsPrune C01.ProofsGreedy C01.ProofsVirt C01.ProofsDsep C01.ProofsTopo.
+  C01.ProofsQuery C01.ProofsPost C01.ProofsPrune C01.ProofsGreedy C01.ProofsVirt C01.ProofsDsep C01.ProofsTopo
+  C01.ProofsDsepAll.
 Import ListNotations.
 Local Open Scope nat_scope.
 
@@ -354,3 +364,139 @@ Example C01_witness_good :
   Qc_eq_bool (feval R w_card (ve_joint w_card w_id 4 w_bn [(2, 0)] [1; 3]) (fun _ => 0))
              (posterior w_card w_bn [0] [(2, 0)] [] (fun _ => 0)) = true.
 Proof. split; vm_compute; reflexivity. Qed.
+
+
+(* ============================ _prune_bayesian_model, every network of every size ================================
+   [prune] = the d-separation step (keep the nodes with an active trail to a query node given the evidence, and the
+   evidence), then the ancestral step, then TabularCPD.marginalize of every kept CPD that lost a parent.  For every
+   valid network whose CPD entries are non-negative, every non-empty query of unobserved nodes, every hard evidence
+   (states in range) with P(e) <> 0:  the evidence is kept as it is, P(e) <> 0 in the pruned network, and the pruned
+   network has the SAME posterior.  (No bound on the number of nodes, cardinalities or CPD values.  Proof: with
+   dc = nodes d-connected to Q given E and W = ancestors of Q u E, every CPD of W has its scope inside dc u E or
+   disjoint from dc - Base/Markov.v scope_A / scope_B, from the verified worklist characterisation of d-connection
+   of C08 - so the joint restricted to W factorises; the part over the dropped nodes is a constant at the evidence,
+   and so is every marginalised CPD.) *)
+Theorem C01_prune_sound :
+  forall (card : var -> nat) (b : bn) (Q : list var) (ev : list (var * nat)),
+  (forall v, 0 < card v) -> valid_bn card b ->
+  (forall x, In x (nodes (bn_g b)) -> forall a, valid card a -> (0 <= feval R card (bn_cpd b x) a)%Qc) ->
+  Q <> [] -> (forall q, In q Q -> In q (nodes (bn_g b)) /\ ~ In q (map fst ev)) ->
+  (forall e, In e ev -> snd e < card (fst e)) ->
+  pev card b Q ev [] <> 0%Qc ->
+  let p := prune card b Q ev in
+  snd p = ev /\ pev card (fst p) Q (snd p) [] <> 0%Qc /\
+  forall a, valid card a -> posterior card (fst p) Q (snd p) [] a = posterior card b Q ev [] a.
+Proof. exact prune_sound. Qed.
+Print Assumptions C01_prune_sound.
+
+(* the same without any sign condition on the CPD entries (and without P(e) <> 0): the unnormalised answers of the
+   full and of the pruned network are proportional, i.e. equal after normalisation whenever both normalise *)
+Theorem C01_prune_proportional :
+  forall (card : var -> nat) (b : bn) (Q : list var) (ev : list (var * nat)) (a a' : asg),
+  valid_bn card b ->
+  Q <> [] -> (forall q, In q Q -> In q (nodes (bn_g b)) /\ ~ In q (map fst ev)) ->
+  (forall e, In e ev -> snd e < card (fst e)) -> valid card a -> valid card a' ->
+  let p := prune card b Q ev in
+  (unnorm card b Q ev [] a * unnorm card (fst p) Q (snd p) [] a' =
+   unnorm card b Q ev [] a' * unnorm card (fst p) Q (snd p) [] a)%Qc.
+Proof. exact prune_proportional_all. Qed.
+Print Assumptions C01_prune_proportional.
+
+(* the hypotheses are satisfiable and the d-separation step really drops a node there (chain 0 -> 1 -> 2, query 2
+   given 1: node 0 goes and P(1 | 0) is marginalised) *)
+Example C01_prune_sound_nonvacuous :
+  valid_bn ex_card ex_bn /\ (forall v, 0 < ex_card v) /\
+  (forall x, In x (nodes (bn_g ex_bn)) -> forall a, valid ex_card a -> (0 <= feval R ex_card (bn_cpd ex_bn x) a)%Qc) /\
+  (forall q, In q [2] -> In q (nodes (bn_g ex_bn)) /\ ~ In q (map fst [(1, 0)])) /\
+  (forall e, In e [(1, 0)] -> snd e < ex_card (fst e)) /\
+  pev ex_card ex_bn [2] [(1, 0)] [] <> 0%Qc /\
+  nodes (bn_g (fst (prune ex_card ex_bn [2] [(1, 0)]))) = [1; 2].
+Proof. exact prune_sound_nonvacuous. Qed.
+
+(* ---- the global Markov property (soundness of d-separation) for every valid network of every size:
+   if no node of X has an active trail (path-based definition, C08/Spec.v) to a node of Y given Z, then X and Y are
+   conditionally independent given Z in the CPD-product joint:  P(x,y,z) P(z) = P(x,z) P(y,z)  for all values
+   ([marginal card b S] sums the joint over every node outside S). *)
+Theorem C01_global_markov :
+  forall (card : var -> nat) (b : bn) (X Y Z : list var) (a : asg),
+  valid_bn card b ->
+  (forall x, In x X -> In x (nodes (bn_g b)) /\ ~ In x Z) ->
+  (forall y, In y Y -> ~ In y Z) ->
+  (forall x y, In x X -> In y Y -> ~ PV.C08.Spec.dconnected (bn_g b) Z x y) ->
+  valid card a ->
+  (marginal card b (X ++ Y ++ Z) a * marginal card b Z a =
+   marginal card b (X ++ Z) a * marginal card b (Y ++ Z) a)%Qc.
+Proof. exact bn_global_markov. Qed.
+Print Assumptions C01_global_markov.
+
+Example C01_global_markov_nonvacuous :
+  valid_bn ex_card ex_bn /\
+  forall x y, In x [0] -> In y [2] -> ~ PV.C08.Spec.dconnected (bn_g ex_bn) [1] x y.
+Proof. split; [exact ex_valid_bn|exact bn_global_markov_nonvacuous]. Qed.
+
+
+(* ---- the pruned network is a valid network (the CPD's own variable is its first axis, as in every TabularCPD:
+   TabularCPD.marginalize renormalises over that axis) *)
+Theorem C01_prune_valid :
+  forall (card : var -> nat) (b : bn) (Q : list var) (ev : list (var * nat)),
+  (forall v, 0 < card v) -> valid_bn card b ->
+  (forall x, In x (nodes (bn_g b)) -> exists r, fvars (bn_cpd b x) = x :: r) ->
+  Q <> [] -> (forall q, In q Q -> In q (nodes (bn_g b)) /\ ~ In q (map fst ev)) ->
+  valid_bn card (fst (prune card b Q ev)).
+Proof. exact prune_valid. Qed.
+Print Assumptions C01_prune_valid.
+
+(* ============================ query = prune ; eliminate, as ONE statement =========================================
+   The literal [query] (Model.query: _virtual_evidence with no virtual evidence, _prune_bayesian_model, then the
+   greedy einsum branch or the dict-of-sets elimination with elimination_order=None or any of the four heuristics),
+   for every valid network of every size with non-negative entries, every hard evidence (distinct observed nodes,
+   states in range) with P(e) <> 0, every non-empty duplicate-free query of unobserved nodes, every set-iteration
+   parameter [ord]:  the answer is the brute-force posterior of the ORIGINAL network. *)
+Theorem C01_query_end_to_end :
+  forall (card : var -> nat) (ord : forall A : Type, list A -> list A) (idbase : nat)
+         (b : bn) (Q : list var) (ev : list (var * nat)) (e : eo),
+  (forall A (l : list A), Permutation (ord A l) l) -> (forall v, 0 < card v) ->
+  valid_bn card b ->
+  (forall x, In x (nodes (bn_g b)) -> forall a, valid card a -> (0 <= feval R card (bn_cpd b x) a)%Qc) ->
+  (forall x, In x (nodes (bn_g b)) -> exists r, fvars (bn_cpd b x) = x :: r) ->
+  (forall v, In v (nodes (bn_g b)) -> v < idbase) ->
+  NoDup (map fst ev) -> (forall x, In x (map fst ev) -> In x (nodes (bn_g b))) ->
+  (forall e, In e ev -> snd e < card (fst e)) ->
+  NoDup Q -> Q <> [] -> (forall q, In q Q -> In q (nodes (bn_g b)) /\ ~ In q (map fst ev)) ->
+  pev card b Q ev [] <> 0%Qc ->
+  (e = EoGreedy \/ e = EoNone \/ exists h, e = EoHeur h) ->
+  exists f, query card ord idbase b Q ev [] e true = inl [(0, f)] /\
+            forall a, valid card a -> feval R card f a = posterior card b Q ev [] a.
+Proof. exact query_end_to_end. Qed.
+Print Assumptions C01_query_end_to_end.
+
+(* joint=False: every entry of the returned dict is the posterior marginal of its variable in the ORIGINAL network *)
+Theorem C01_query_end_to_end_per_variable :
+  forall (card : var -> nat) (ord : forall A : Type, list A -> list A) (idbase : nat)
+         (b : bn) (Q : list var) (ev : list (var * nat)) (e : eo),
+  (forall A (l : list A), Permutation (ord A l) l) -> (forall v, 0 < card v) ->
+  valid_bn card b ->
+  (forall x, In x (nodes (bn_g b)) -> forall a, valid card a -> (0 <= feval R card (bn_cpd b x) a)%Qc) ->
+  (forall x, In x (nodes (bn_g b)) -> exists r, fvars (bn_cpd b x) = x :: r) ->
+  (forall v, In v (nodes (bn_g b)) -> v < idbase) ->
+  NoDup (map fst ev) -> (forall x, In x (map fst ev) -> In x (nodes (bn_g b))) ->
+  (forall e, In e ev -> snd e < card (fst e)) ->
+  NoDup Q -> Q <> [] -> (forall q, In q Q -> In q (nodes (bn_g b)) /\ ~ In q (map fst ev)) ->
+  pev card b Q ev [] <> 0%Qc ->
+  (e = EoGreedy \/ e = EoNone \/ exists h, e = EoHeur h) ->
+  exists res, query card ord idbase b Q ev [] e false = inl res /\
+    forall q f a, valid card a -> In (q, f) res ->
+      In q Q /\ feval R card f a = posterior_marginal card b Q ev [] q a.
+Proof. exact query_end_to_end_per_variable. Qed.
+Print Assumptions C01_query_end_to_end_per_variable.
+
+(* non-vacuity: the chain network above meets the remaining hypotheses, and there the literal query (which prunes
+   node 0) computes the posterior of the full network *)
+Example C01_query_end_to_end_nonvacuous :
+  (forall x, In x (nodes (bn_g ex_bn)) -> exists r, fvars (bn_cpd ex_bn x) = x :: r) /\
+  (forall v, In v (nodes (bn_g ex_bn)) -> v < 3) /\
+  NoDup (map fst [(1, 0)]) /\ (forall x, In x (map fst [(1, 0)]) -> In x (nodes (bn_g ex_bn))) /\
+  NoDup [2] /\ [2] <> [] /\
+  exists f, query ex_card (fun _ l => l) 3 ex_bn [2] [(1, 0)] [] EoNone true = inl [(0, f)] /\
+            Qc_eq_bool (feval R ex_card f (fun _ => 0)) (posterior ex_card ex_bn [2] [(1, 0)] [] (fun _ => 0)) = true.
+Proof. exact query_end_to_end_nonvacuous. Qed.
